@@ -1,6 +1,6 @@
 """C11: typed inputs and outputs - tag agreement of the per-type closure families, classification table, must-coerce rule (DESIGN §3 C11)."""
 import hirflow
-from facts import find_hir, strip, walk_hir
+from facts import find_hir, pat_paths, strip, walk_hir
 
 LEVEL = "other"
 CRATES_QUICK = ["dmntk_model_evaluator", "dmntk_feel", "dmntk_model"]
@@ -318,13 +318,15 @@ def run(F, rep, tier):
                 continue
             fl = hirflow.Flow({"params": clo.get("params", []), "body": clo["body"]})
             for c, args, cond, line, node in fl.calls:
-                if not (c or "").endswith("::check_allowed_values") or not args:
+                if not ((c or "").endswith("::check_allowed_values") or (c or "").endswith("::check_allowed_items")) or not args:
                     continue
                 nre += 1
                 a = args[0]
                 key = "rebuilt:%s:%s" % (n.replace(ME, "").split("::")[-1], clo.get("name", "").split("::")[-1])
                 rooted_in_input = "('arg', 0)" in repr(a) and not (a and a[0] == "ctor")
-                if a and a[0] == "ctor" and not ("('arg', 0)" in repr(a) and "unwrap" not in repr(a)):
+                if (c or "").endswith("::check_allowed_items") and "('arg', 0)" not in repr(a):
+                    rep.ok(r4, key, "returns the list re-built from the checked items")
+                elif a and a[0] == "ctor" and not ("('arg', 0)" in repr(a) and "unwrap" not in repr(a)):
                     rep.ok(r4, key, "returns the re-built %s" % a[1].split("::")[-1])
                 elif rooted_in_input:
                     rep.violation(r4, key, "the evaluator checks the parts of its input in a loop but hands the *input value itself* to check_allowed_values (line %s): non-conforming "
@@ -344,9 +346,78 @@ def run(F, rep, tier):
         else:
             rep.violation(r4, "allowed-values:" + n.split("::")[-1], "%s returns the value without checking the allowed values" % n, "%s:%s" % (h["file"], h["line"]))
     rep.floor(r4, "simple-type evaluators", nav, 8)
+    allowed_values_rules(F, rep)
     # ---------------- premises: "conforms" is FeelType::is_conformant / coerced over Value::type_of; their structural rules (C16) are re-evaluated here,
     # because a slip there changes which inputs and results pass the type check
     from props import c16
     expl = rep.explanation
     c16.run(F, rep, tier)
     rep.explanation = expl + " The structural rules of the conformance relation itself (R16.x, property C16) are re-evaluated as premises."
+
+
+def allowed_values_rules(F, rep):
+    """R11.5: the allowed values of an item definition are applied whatever the kind of its type: in the dispatch of build_item_definition_evaluator every arm for a kind that
+    takes the prepared allowed-values evaluator as a parameter elsewhere (simple, referenced, collection of simple, collection of referenced) hands it over - an arm that drops it
+    ignores the constraint.  R11.6: the values defined by a collection item definition are collections of allowed values: inside a collection evaluator the allowed values are
+    tested on the items (a helper that loops over the items, or a test inside the item loop), never on the list as a whole (`? in ("a","b")` with ? bound to a list is never true)."""
+    r5 = rep.rule("R11.5", "the allowed-values evaluator prepared for an item definition is handed to the builder of every kind of type that can carry allowed values (simple, referenced, collections of them)")
+    r6 = rep.rule("R11.6", "inside a collection evaluator the allowed values are tested on the items, never on the list as a whole")
+    fn = ME + "builders::item_definition::build_item_definition_evaluator"
+    h = F.hir.get(fn)
+    if h is None:
+        rep.missing_anchor(r5, fn)
+        return
+    where = "%s:%s" % (h["file"], h["line"])
+    avs = [st["p"]["name"] for st, _ in find_hir(h["body"], lambda x: x.get("k") == "LetStmt" and "e" in x and x.get("p", {}).get("k") == "Bind" and
+                                                  find_hir(x["e"], lambda y: y.get("k") == "Call" and str(y.get("callee") or "").endswith("build_allowed_values_evaluator")))]
+    if len(avs) != 1:
+        rep.undecided(r5, "allowed-values:dispatch", "no single local holds the prepared allowed-values evaluator")
+        return
+    av = avs[0]
+    n = 0
+    for m, _ in find_hir(h["body"], lambda x: x.get("k") == "Match" and x.get("src") == "Normal"):
+        for arm in m["arms"]:
+            kinds = [c.split("::")[-1] for c in pat_paths(arm["p"]) if "ItemDefinitionType::" in c]
+            if len(kinds) != 1:
+                continue
+            kind = kinds[0]
+            if "Component" in kind:
+                continue          # component types prepare their own evaluator from the item definition
+            n += 1
+            key = "allowed-values:arm:%s" % kind
+            uses = find_hir(arm["b"], lambda x: x.get("k") == "Path" and x.get("res") == "local" and x.get("name") == av)
+            if uses:
+                rep.ok(r5, key, "hands `%s` to the builder" % av)
+            else:
+                rep.violation(r5, key, "the arm for ItemDefinitionType::%s does not use the prepared allowed-values evaluator `%s`: the allowed values of such an item definition are "
+                              "ignored (a value outside them reaches the decision logic unchanged)" % (kind, av), "%s:%s" % (h["file"], arm.get("l")))
+    rep.floor(r5, "dispatch arms for kinds that can carry allowed values", n, 4)
+    # R11.6
+    nc = 0
+    helpers_per_item = set()
+    for name, hh in F.hir.items():
+        if name.startswith(ME + "builders::item_definition::check_allowed") and find_hir(hh["body"], lambda x: x.get("k") == "Loop"):
+            helpers_per_item.add(name)
+    for name, hh in sorted(F.hir.items()):
+        if not name.startswith(ME + "builders::item_definition::build_collection_of"):
+            continue
+        for clo, _ in find_hir(hh["body"], lambda x: x.get("k") == "Closure"):
+            loops = [lp for lp, _ in find_hir(clo["body"], lambda x: x.get("k") == "Loop")]
+            if not loops:
+                continue
+            calls = find_hir(clo["body"], lambda x: x.get("k") == "Call" and "check_allowed" in str(x.get("callee") or ""))
+            for c, ps in calls:
+                nc += 1
+                key = "allowed-items:%s:%s" % (name.replace(ME, "").split("::")[-1], clo.get("name", "").split("::")[-1])
+                in_loop = any(find_hir(lp, lambda y: y is c) for lp in loops)
+                first = c["args"][0] if c.get("args") else {}
+                whole_list = bool(find_hir(first, lambda y: y.get("k") == "Call" and str(y.get("callee") or "").endswith("Value::List"))) or \
+                    "Values" in str(F.crates.get(hh.get("_crate"), {}).get("types", [""])[first.get("t")] if isinstance(first.get("t"), int) else "")
+                if c["callee"] in helpers_per_item or in_loop:
+                    rep.ok(r6, key, "tested item by item")
+                elif whole_list:
+                    rep.violation(r6, key, "the collection evaluator tests the whole list against the allowed values (line %s): `? in (..)` with ? bound to a list is never true, so every "
+                                  "input of this type becomes null" % c.get("l"), "%s:%s" % (hh["file"], c.get("l")))
+                else:
+                    rep.undecided(r6, key, "what is tested against the allowed values is neither an item nor visibly the list")
+    rep.floor(r6, "allowed-values tests inside collection evaluators", nc, 8)
